@@ -203,4 +203,1128 @@ theorem Chain.tail_nonempty {h : Heap} (hwf : WF h) {id e : Nat} {l : List Nat} 
   | last id _ => exact hne
   | step id j l e hn _ ih => exact ih (hwf id j hn).2.2
 
+/-! ### allocation of a fresh block -/
+
+theorem freshBlock_length (base : Nat) (src : List ENode) : (freshBlock base src).length = src.length := by
+  induction src generalizing base with
+  | nil => rfl
+  | cons n rest ih =>
+    cases rest with
+    | nil => rfl
+    | cons m rest => simp only [freshBlock, List.length_cons, ih (base + 1)]
+
+/-- cell `k` of the copy is cell `k` of the source, relinked to its right neighbour -/
+theorem freshBlock_get (base : Nat) (src : List ENode) (k : Nat) :
+    (freshBlock base src)[k]? =
+      (src[k]?).map (fun m => { m with next := if k + 1 < src.length then some (base + k + 1) else none }) := by
+  induction src generalizing base k with
+  | nil => simp [freshBlock]
+  | cons n rest ih =>
+    cases rest with
+    | nil =>
+      cases k with
+      | zero => simp [freshBlock]
+      | succ k => simp [freshBlock]
+    | cons m rest =>
+      cases k with
+      | zero => simp [freshBlock]
+      | succ k =>
+        simp only [freshBlock, List.getElem?_cons_succ, ih (base + 1) k, List.length_cons]
+        cases (m :: rest)[k]? with
+        | none => rfl
+        | some x =>
+          simp only [Option.map_some]
+          have e1 : base + 1 + k + 1 = base + (k + 1) + 1 := by omega
+          have e2 : (k + 1 < rest.length + 1) ↔ (k + 1 + 1 < rest.length + 1 + 1) := by omega
+          simp only [e1, e2]
+
+theorem block_cell (h : Heap) (blk : List ENode) (k : Nat) : (h ++ blk.toArray)[h.size + k]? = blk[k]? := by
+  rw [Array.getElem?_append_right (by omega)]
+  simp
+
+theorem block_old (h : Heap) (blk : List ENode) (i : Nat) (hi : i < h.size) : (h ++ blk.toArray)[i]? = h[i]? := by
+  rw [Array.getElem?_append_left hi]
+
+/-- a block whose cells are linked to their right neighbours is one chain -/
+theorem linear_chain (H : Heap) : ∀ (len base : Nat), 0 < len →
+    (∀ k, k < len → nextOf H (base + k) = if k + 1 < len then some (base + k + 1) else none) →
+    Chain H base (List.range' base len) (base + len - 1) := by
+  intro len
+  induction len with
+  | zero => intro base h0; omega
+  | succ n ih =>
+    intro base _ hnx
+    cases n with
+    | zero =>
+      have h0 := hnx 0 (by omega)
+      simp at h0
+      simpa [List.range'] using Chain.last base h0
+    | succ n =>
+      have h0 := hnx 0 (by omega)
+      simp at h0
+      have hrec := ih (base + 1) (by omega) (fun k hk => by
+        have := hnx (k + 1) (by omega)
+        have e1 : base + (k + 1) = base + 1 + k := by omega
+        have e2 : base + (k + 1) + 1 = base + 1 + k + 1 := by omega
+        have e3 : (k + 1 + 1 < n + 1 + 1) ↔ (k + 1 < n + 1) := by omega
+        rw [e1] at this
+        simp only [e3] at this
+        exact this)
+      have e4 : base + 1 + (n + 1) - 1 = base + (n + 1 + 1) - 1 := by omega
+      rw [e4] at hrec
+      rw [List.range'_succ]
+      exact Chain.step base (base + 1) _ _ h0 hrec
+
+theorem range_filterMap (H : Heap) : ∀ (l : List ENode) (k : Nat), (∀ i, i < l.length → H[k + i]? = l[i]?) →
+    (List.range' k l.length).filterMap (fun i => (H[i]?).bind visible) = l.filterMap visible := by
+  intro l
+  induction l with
+  | nil => intro _ _; rfl
+  | cons a l ih =>
+    intro k hc
+    have h0 := hc 0 (by simp)
+    simp only [Nat.add_zero, List.getElem?_cons_zero] at h0
+    simp only [List.length_cons, List.range'_succ, List.filterMap_cons, h0, Option.bind_some]
+    rw [ih (k + 1) (fun i hi => by
+      have := hc (i + 1) (by simp; omega)
+      simp only [List.getElem?_cons_succ] at this
+      rw [← this]; congr 1; omega)]
+
+/-- the shape of the nodes of a chain: all but the last have a successor -/
+def LinkShape : List ENode → Prop
+  | [] => False
+  | [n] => n.next = none
+  | n :: m :: rest => n.next.isSome = true ∧ LinkShape (m :: rest)
+
+theorem visible_relink_some (n : ENode) (k : Nat) (hn : n.next.isSome = true) :
+    visible { n with next := some k } = visible n := by
+  cases hx : n.next with
+  | none => rw [hx] at hn; cases hn
+  | some j => simp [visible, nodeEmpty, hx]
+
+theorem relink_none (n : ENode) (hn : n.next = none) : { n with next := none } = n := by
+  cases n; simp at hn; subst hn; rfl
+
+theorem freshBlock_visible (base : Nat) (src : List ENode) (hs : LinkShape src) :
+    (freshBlock base src).filterMap visible = src.filterMap visible := by
+  induction src generalizing base with
+  | nil => rfl
+  | cons n rest ih =>
+    cases rest with
+    | nil =>
+      simp only [LinkShape] at hs
+      simp only [freshBlock, relink_none n hs]
+    | cons m rest =>
+      simp only [LinkShape] at hs
+      have hrec := ih (base + 1) hs.2
+      simp only [freshBlock]
+      rw [List.filterMap_cons, visible_relink_some n _ hs.1, hrec]
+      conv => rhs; rw [List.filterMap_cons]
+
+theorem LinkShape.get {src : List ENode} (hs : LinkShape src) : ∀ (k : Nat) (m : ENode), src[k]? = some m →
+    (m.next.isSome = true ↔ k + 1 < src.length) := by
+  induction src with
+  | nil => exact absurd hs (by simp [LinkShape])
+  | cons n rest ih =>
+    intro k m hk
+    cases rest with
+    | nil =>
+      simp only [LinkShape] at hs
+      cases k with
+      | zero => simp at hk; subst hk; simp [hs]
+      | succ k => simp at hk
+    | cons m' rest =>
+      simp only [LinkShape] at hs
+      cases k with
+      | zero => simp at hk; subst hk; simp [hs.1]
+      | succ k =>
+        simp only [List.getElem?_cons_succ] at hk
+        have := ih hs.2 k m hk
+        simp only [List.length_cons] at this ⊢
+        rw [this]; omega
+
+structure BlockOK (src : List ENode) : Prop where
+  shape : LinkShape src
+  nonempty : ∀ m ∈ src, nodeEmpty m = false
+
+theorem nodeEmpty_relink {src : List ENode} (hs : LinkShape src) (k : Nat) (m : ENode) (hk : src[k]? = some m)
+    (base : Nat) :
+    nodeEmpty { m with next := if k + 1 < src.length then some (base + k + 1) else none } = nodeEmpty m := by
+  have hg := hs.get k m hk
+  by_cases hlt : k + 1 < src.length
+  · have hsome := hg.mpr hlt
+    cases hx : m.next with
+    | none => rw [hx] at hsome; cases hsome
+    | some j => simp [nodeEmpty, hlt, hx]
+  · have hnone : m.next = none := by
+      cases hx : m.next with
+      | none => rfl
+      | some j => exact absurd (hg.mp (by simp [hx])) hlt
+    simp only [hlt, if_false, relink_none m hnone]
+
+theorem LinkShape.ne_nil {src : List ENode} (hs : LinkShape src) : src ≠ [] := by
+  intro h; subst h; exact hs
+
+/-- **allocation**: copying a block of nodes into fresh cells keeps the heap well-formed, changes no old cell, and the
+    block is one chain whose visible items are those of the source nodes -/
+theorem block_spec (h : Heap) (src : List ENode) (hwf : WF h) (ok : BlockOK src) :
+    WF (h ++ (freshBlock h.size src).toArray) ∧
+    (h ++ (freshBlock h.size src).toArray).size = h.size + src.length ∧
+    (∀ i, i < h.size → (h ++ (freshBlock h.size src).toArray)[i]? = h[i]?) ∧
+    Chain (h ++ (freshBlock h.size src).toArray) h.size (List.range' h.size src.length) (h.size + src.length - 1) ∧
+    (List.range' h.size src.length).filterMap (fun i => ((h ++ (freshBlock h.size src).toArray)[i]?).bind visible)
+      = src.filterMap visible ∧
+    isEmpty (h ++ (freshBlock h.size src).toArray) h.size = false := by
+  have hlen : 0 < src.length := List.length_pos_iff.mpr ok.shape.ne_nil
+  have hcell : ∀ k, (h ++ (freshBlock h.size src).toArray)[h.size + k]? =
+      (src[k]?).map (fun m => { m with next := if k + 1 < src.length then some (h.size + k + 1) else none }) := by
+    intro k; rw [block_cell, freshBlock_get]
+  have hsize : (h ++ (freshBlock h.size src).toArray).size = h.size + src.length := by
+    simp [freshBlock_length]
+  have hold : ∀ i, i < h.size → (h ++ (freshBlock h.size src).toArray)[i]? = h[i]? := fun i hi => block_old h _ i hi
+  have hnext : ∀ k, k < src.length → nextOf (h ++ (freshBlock h.size src).toArray) (h.size + k) =
+      if k + 1 < src.length then some (h.size + k + 1) else none := by
+    intro k hk
+    unfold nextOf
+    rw [hcell k, List.getElem?_eq_getElem hk]
+    simp
+  have hemp : ∀ k, k < src.length → isEmpty (h ++ (freshBlock h.size src).toArray) (h.size + k) = false := by
+    intro k hk
+    unfold isEmpty
+    rw [hcell k, List.getElem?_eq_getElem hk]
+    simp only [Option.map_some]
+    rw [nodeEmpty_relink ok.shape k src[k] (List.getElem?_eq_getElem hk)]
+    exact ok.nonempty _ (List.getElem_mem hk)
+  refine ⟨?_, hsize, hold, linear_chain _ src.length h.size hlen hnext, ?_, ?_⟩
+  · intro i j hn
+    by_cases hi : i < h.size
+    · have hn' : nextOf h i = some j := by rw [← nextOf_congr h _ i (hold i hi)]; exact hn
+      obtain ⟨h1, h2, h3⟩ := hwf i j hn'
+      refine ⟨h1, by rw [hsize]; omega, ?_⟩
+      rw [isEmpty_congr h _ j (hold j h2)]; exact h3
+    · obtain ⟨k, rfl⟩ : ∃ k, i = h.size + k := ⟨i - h.size, by omega⟩
+      have hk : k < src.length := by
+        have := nextOf_lt_size hn; rw [hsize] at this; omega
+      rw [hnext k hk] at hn
+      by_cases hlt : k + 1 < src.length
+      · simp [hlt] at hn
+        subst hn
+        refine ⟨by omega, by rw [hsize]; omega, ?_⟩
+        have := hemp (k + 1) hlt
+        rw [← Nat.add_assoc] at this
+        exact this
+      · simp [hlt] at hn
+  · rw [← freshBlock_visible h.size src ok.shape]
+    have := range_filterMap (h ++ (freshBlock h.size src).toArray) (freshBlock h.size src) h.size
+      (fun i _ => block_cell h _ i)
+    rw [freshBlock_length] at this
+    exact this
+  · have := hemp 0 hlen
+    simpa using this
+
+/-! ### what one argument contributes -/
+
+def itemOf (n : ENode) : Item := { msg := n.msg, cause := n.cause, hasStack := n.hasStack, wrapped := n.wrapped }
+
+/-- the non-nil, non-empty errors contained in one argument of `Append` (aggregates flattened) -/
+def argItems (h : Heap) : Val → List Item
+  | .ref id => items h id
+  | v => if isNil v then [] else [itemOf (wrapperNode v)]
+
+def getNode (h : Heap) (i : Nat) : ENode := (h[i]?).getD default
+
+theorem get_of_lt (h : Heap) (i : Nat) (hi : i < h.size) : h[i]? = some (getNode h i) := by
+  unfold getNode; simp [Array.getElem?_eq_getElem hi]
+
+theorem Chain.mem_cases {h : Heap} {id e : Nat} {l : List Nat} (c : Chain h id l e) :
+    ∀ i ∈ l, i = id ∨ ∃ p, nextOf h p = some i := by
+  induction c with
+  | last id _ => intro i hi; simp at hi; exact Or.inl hi
+  | step id j l e hn _ ih =>
+    intro i hi
+    simp at hi
+    rcases hi with rfl | hi
+    · exact Or.inl rfl
+    · rcases ih i hi with rfl | ⟨p, hp⟩
+      · exact Or.inr ⟨id, hn⟩
+      · exact Or.inr ⟨p, hp⟩
+
+theorem Chain.shape {h : Heap} {id e : Nat} {l : List Nat} (c : Chain h id l e) (hin : ∀ i ∈ l, i < h.size) :
+    LinkShape (l.map (getNode h)) := by
+  induction c with
+  | last id hn =>
+    have hid := get_of_lt h id (hin id (by simp))
+    simp only [List.map_cons, List.map_nil, LinkShape]
+    unfold nextOf at hn; rw [hid] at hn; simpa using hn
+  | step id j l e hn c ih =>
+    have hid := get_of_lt h id (hin id (by simp))
+    have hrec := ih (fun i hi => hin i (by simp [hi]))
+    obtain ⟨j', l', rfl⟩ : ∃ j' l', l = j' :: l' := by
+      cases l with
+      | nil => exact absurd rfl c.ne_nil
+      | cons a b => exact ⟨a, b, rfl⟩
+    simp only [List.map_cons, LinkShape] at hrec ⊢
+    refine ⟨?_, hrec⟩
+    unfold nextOf at hn; rw [hid] at hn
+    simp at hn; simp [hn]
+
+theorem isEmpty_false_node (h : Heap) (i : Nat) (hi : i < h.size) (he : isEmpty h i = false) :
+    nodeEmpty (getNode h i) = false := by
+  unfold isEmpty at he; rw [get_of_lt h i hi] at he; exact he
+
+/-- the nodes of a chain with a non-empty head form a block that can be copied -/
+theorem Chain.blockOK {h : Heap} (hwf : WF h) {id e : Nat} {l : List Nat} (c : Chain h id l e)
+    (hin : ∀ i ∈ l, i < h.size) (hne : isEmpty h id = false) : BlockOK (l.map (getNode h)) := by
+  refine ⟨c.shape hin, ?_⟩
+  intro m hm
+  simp only [List.mem_map] at hm
+  obtain ⟨i, hi, rfl⟩ := hm
+  apply isEmpty_false_node h i (hin i hi)
+  rcases c.mem_cases i hi with rfl | ⟨p, hp⟩
+  · exact hne
+  · exact (hwf p i hp).2.2
+
+theorem map_get_visible (h : Heap) (l : List Nat) (hin : ∀ i ∈ l, i < h.size) :
+    (l.map (getNode h)).filterMap visible = l.filterMap (fun i => (h[i]?).bind visible) := by
+  rw [List.filterMap_map]
+  apply filterMap_congr'
+  intro i hi
+  simp [get_of_lt h i (hin i hi)]
+
+theorem visible_of_nonempty (n : ENode) (hn : nodeEmpty n = false) : visible n = some (itemOf n) := by
+  simp [visible, hn, itemOf]
+
+theorem items_of_empty (h : Heap) (id : Nat) (he : isEmpty h id = true) : items h id = [] := by
+  unfold items itemsAt fuelOf
+  unfold isEmpty at he
+  cases hx : h[id]? with
+  | none => simp [chain, nextOf, hx]
+  | some n =>
+    rw [hx] at he
+    have hnx : n.next = none := by
+      unfold nodeEmpty at he
+      cases hh : n.next with
+      | none => rfl
+      | some j => simp [hh] at he
+    simp [chain, nextOf, hx, hnx, visible, he]
+
+/-- the outcome of building the chain for one argument -/
+structure ArgBuilt (h : Heap) (a : Val) (h1 : Heap) (n : Nat) (w : List Nat) (lb : List Nat) (e' : Nat) : Prop where
+  wf : WF h1
+  grow : h.size < h1.size
+  frame : ∀ i, i < h.size → h1[i]? = h[i]?
+  chain : Chain h1 n lb e'
+  fresh : ∀ i ∈ lb, h.size ≤ i ∧ i < h1.size
+  headNonempty : isEmpty h1 n = false
+  items : lb.filterMap (fun i => (h1[i]?).bind visible) = argItems h a
+  itemsNe : argItems h a ≠ []
+  written : ∀ i ∈ w, h.size ≤ i
+
+theorem built_of_block (h : Heap) (a : Val) (src : List ENode) (w : List Nat) (hwf : WF h) (ok : BlockOK src)
+    (hit : src.filterMap visible = argItems h a) (hw : ∀ i ∈ w, h.size ≤ i) :
+    ArgBuilt h a (h ++ (freshBlock h.size src).toArray) h.size w (List.range' h.size src.length)
+      (h.size + src.length - 1) := by
+  obtain ⟨h1, h2, h3, h4, h5, h6⟩ := block_spec h src hwf ok
+  have hlen : 0 < src.length := List.length_pos_iff.mpr ok.shape.ne_nil
+  refine ⟨h1, by rw [h2]; omega, h3, h4, ?_, h6, by rw [h5, hit], ?_, hw⟩
+  · intro i hi
+    rw [List.mem_range'_1] at hi
+    rw [h2]; omega
+  · rw [← hit]
+    obtain ⟨m, rest, rfl⟩ : ∃ m rest, src = m :: rest := by
+      cases src with
+      | nil => exact absurd rfl ok.shape.ne_nil
+      | cons a b => exact ⟨a, b, rfl⟩
+    rw [List.filterMap_cons, visible_of_nonempty m (ok.nonempty m (by simp))]
+    simp
+
+theorem argNode_spec (h : Heap) (a : Val) (hwf : WF h) (hid : ∀ id, a = .ref id → id < h.size) :
+    (argNode h a = (h, none, []) ∧ argItems h a = []) ∨
+    (∃ h1 n w lb e', argNode h a = (h1, some n, w) ∧ ArgBuilt h a h1 n w lb e') := by
+  have wrapper : ∀ v : Val, isNil v = false → (∀ id, v ≠ .ref id) →
+      argNode h v = (h.push (wrapperNode v), some h.size, []) → argItems h v = [itemOf (wrapperNode v)] →
+      ∃ h1 n w lb e', argNode h v = (h1, some n, w) ∧ ArgBuilt h v h1 n w lb e' := by
+    intro v _ _ hav hit
+    have hpush : h.push (wrapperNode v) = h ++ (freshBlock h.size [wrapperNode v]).toArray := by
+      simp [freshBlock, wrapperNode]
+    have ok : BlockOK [wrapperNode v] := ⟨by simp [LinkShape, wrapperNode], by simp [nodeEmpty, wrapperNode]⟩
+    refine ⟨h.push (wrapperNode v), h.size, [], List.range' h.size [wrapperNode v].length,
+      h.size + [wrapperNode v].length - 1, hav, ?_⟩
+    rw [hpush]
+    exact built_of_block h v [wrapperNode v] [] hwf ok
+      (by rw [hit]; simp [visible_of_nonempty (wrapperNode v) (ok.nonempty (wrapperNode v) (by simp))]) (by simp)
+  cases a with
+  | nilIface => exact Or.inl ⟨by simp [argNode, isNil], by simp [argItems, isNil]⟩
+  | typedNil => exact Or.inl ⟨by simp [argNode], by simp [argItems, isNil]⟩
+  | foreignNil => exact Or.inl ⟨by simp [argNode, isNil], by simp [argItems, isNil]⟩
+  | plain u m =>
+    exact Or.inr (wrapper _ (by simp [isNil]) (by simp) (by simp [argNode, isNil]) (by simp [argItems, isNil]))
+  | fwrap u m inner =>
+    exact Or.inr (wrapper _ (by simp [isNil]) (by simp) (by simp [argNode, isNil]) (by simp [argItems, isNil]))
+  | ref id =>
+    have hlt := hid id rfl
+    by_cases he : isEmpty h id = true
+    · exact Or.inl ⟨by simp [argNode, he], by simp [argItems, items_of_empty h id he]⟩
+    · have he' : isEmpty h id = false := by simpa using he
+      obtain ⟨c, hm⟩ := hwf.chain_spec hlt
+      have hin : ∀ i ∈ chain h (fuelOf h) id, i < h.size := fun i hi => (hm i hi).2
+      have ok := c.blockOK hwf hin he'
+      have hsrc : (chain h (fuelOf h) id).map (fun i => (h[i]?).getD default) = (chain h (fuelOf h) id).map (getNode h) := rfl
+      refine Or.inr ⟨h ++ (freshBlock h.size ((chain h (fuelOf h) id).map (getNode h))).toArray, h.size,
+        List.range' h.size ((h ++ (freshBlock h.size ((chain h (fuelOf h) id).map (getNode h))).toArray).size - h.size - 1),
+        List.range' h.size ((chain h (fuelOf h) id).map (getNode h)).length,
+        h.size + ((chain h (fuelOf h) id).map (getNode h)).length - 1,
+        by simp only [argNode, he', copyChain, hsrc]; rfl, ?_⟩
+      refine built_of_block h (.ref id) _ _ hwf ok ?_ ?_
+      · rw [map_get_visible h _ hin]; rfl
+      · intro i hi
+        rw [List.mem_range'_1] at hi
+        exact hi.1
+
+/-! ### the destructive write keeps the invariant -/
+
+theorem setNext_cell (h : Heap) (e n : Nat) (he : e < h.size) :
+    (setNext h e n)[e]? = some { getNode h e with next := some n } := by
+  unfold setNext
+  rw [Array.getElem?_modify]
+  simp [get_of_lt h e he]
+
+theorem isEmpty_setNext (h : Heap) (e n i : Nat) (hi : isEmpty h i = false) : isEmpty (setNext h e n) i = false := by
+  by_cases hie : i = e
+  · subst hie
+    by_cases hlt : i < h.size
+    · unfold isEmpty; rw [setNext_cell h i n hlt]; simp [nodeEmpty]
+    · unfold isEmpty at hi
+      have : h[i]? = none := by simp; omega
+      rw [this] at hi; cases hi
+  · rw [isEmpty_congr h _ i (setNext_other h e n i hie)]; exact hi
+
+theorem WF_setNext (h : Heap) (e n : Nat) (hwf : WF h) (he : e < h.size) (hen : e < n) (hn : n < h.size)
+    (hne : isEmpty h n = false) : WF (setNext h e n) := by
+  intro i j hij
+  rw [setNext_size]
+  by_cases hie : i = e
+  · subst hie
+    rw [nextOf_setNext_same h i n he] at hij
+    cases hij
+    exact ⟨hen, hn, isEmpty_setNext h i n n hne⟩
+  · rw [nextOf_setNext_other h e n i hie] at hij
+    obtain ⟨h1, h2, h3⟩ := hwf i j hij
+    exact ⟨h1, h2, isEmpty_setNext h e n j h3⟩
+
+theorem visible_setNext (h : Heap) (e n : Nat) (he : e < h.size) (hne : isEmpty h e = false) :
+    ((setNext h e n)[e]?).bind visible = (h[e]?).bind visible := by
+  have hx := isEmpty_false_node h e he hne
+  rw [setNext_cell h e n he, get_of_lt h e he]
+  simp only [Option.bind_some]
+  rw [visible_of_nonempty _ hx]
+  simp [visible, nodeEmpty, itemOf]
+
+/-! ### frame for an argument: a heap that agrees on the cells of its chain gives it the same content -/
+
+theorem arg_frame (h h' : Heap) (hwf : WF h) (hwf' : WF h') (hsz : h.size ≤ h'.size) (id : Nat) (hid : id < h.size)
+    (hag : ∀ i ∈ chain h (fuelOf h) id, h'[i]? = h[i]?) :
+    chain h' (fuelOf h') id = chain h (fuelOf h) id ∧ items h' id = items h id := by
+  obtain ⟨c, _⟩ := hwf.chain_spec hid
+  have c' := c.congr hag
+  obtain ⟨_, _, hl, _⟩ := c'.bounds hwf' (by omega)
+  refine ⟨hl.symm, ?_⟩
+  unfold items itemsAt
+  rw [← hl]
+  apply filterMap_congr'
+  intro i hi
+  rw [hag i hi]
+
+theorem argItems_frame (h h' : Heap) (hwf : WF h) (hwf' : WF h') (hsz : h.size ≤ h'.size) (a : Val)
+    (hid : ∀ id, a = .ref id → id < h.size ∧ ∀ i ∈ chain h (fuelOf h) id, h'[i]? = h[i]?) :
+    argItems h' a = argItems h a := by
+  cases a with
+  | ref id => exact (arg_frame h h' hwf hwf' hsz id (hid id rfl).1 (hid id rfl).2).2
+  | nilIface => rfl
+  | typedNil => rfl
+  | foreignNil => rfl
+  | plain u m => rfl
+  | fwrap u m inner => rfl
+
+theorem flatMap_congr' {α β : Type} (f g : α → List β) (l : List α) (h : ∀ x ∈ l, f x = g x) :
+    l.flatMap f = l.flatMap g := by
+  induction l with
+  | nil => rfl
+  | cons a l ih =>
+    simp only [List.flatMap_cons, h a (by simp)]
+    rw [ih (fun x hx => h x (by simp [hx]))]
+
+/-! ### assembly over the loop -/
+
+/-- what `appendLoop` achieves from a state whose cursor is `e`, the end of the chain `l` of the root `r` -/
+structure LoopDone (h : Heap) (r e : Nat) (l log : List Nat) (args : List Val)
+    (res : Heap × Option Nat × List Nat) : Prop where
+  root : res.2.1 = some r
+  wf : WF res.1
+  grow : h.size ≤ res.1.size
+  frame : ∀ i, i < h.size → i ≠ e → res.1[i]? = h[i]?
+  chain : ∃ L e', Chain res.1 r (l ++ L) e' ∧ (∀ i ∈ L, h.size ≤ i ∧ i < res.1.size) ∧
+      (l ++ L).filterMap (fun i => (res.1[i]?).bind visible) =
+        l.filterMap (fun i => (h[i]?).bind visible) ++ args.flatMap (argItems h) ∧
+      ((L = [] ∧ res.1 = h) ∨ h.size ≤ e')
+  written : ∀ i ∈ res.2.2, i ∈ log ∨ i = e ∨ h.size ≤ i
+
+theorem loop_some : ∀ (args : List Val) (h : Heap) (r e : Nat) (l log : List Nat), WF h → Chain h r l e →
+    (∀ i ∈ l, i < h.size) → isEmpty h r = false →
+    (∀ id, Val.ref id ∈ args → id < h.size ∧ e ∉ chain h (fuelOf h) id) →
+    LoopDone h r e l log args (appendLoop h (some r) (some e) log args) := by
+  intro args
+  induction args with
+  | nil =>
+    intro h r e l log hwf c hin hne _
+    have hun : appendLoop h (some r) (some e) log [] = (h, some r, log) := rfl
+    rw [hun]
+    exact ⟨rfl, hwf, Nat.le_refl _, fun _ _ _ => rfl, ⟨[], e, by simpa using c, by simp, by simp, Or.inl ⟨rfl, rfl⟩⟩, fun i hi => Or.inl hi⟩
+  | cons a as ih =>
+    intro h r e l log hwf c hin hne hargs
+    have hargs' : ∀ id, Val.ref id ∈ as → id < h.size ∧ e ∉ chain h (fuelOf h) id :=
+      fun id hid => hargs id (by simp [hid])
+    rcases argNode_spec h a hwf (fun id ha => (hargs id (by simp [ha])).1) with ⟨hsk, hit⟩ | ⟨h1, n, w, lb, e', hb, B⟩
+    · have hun : appendLoop h (some r) (some e) log (a :: as) = appendLoop h (some r) (some e) log as := by
+        simp only [appendLoop, hsk]
+      rw [hun]
+      obtain ⟨g1, g2, g3, g4, ⟨L, e', g5, g6, g7, g9⟩, g8⟩ := ih h r e l log hwf c hin hne hargs'
+      exact ⟨g1, g2, g3, g4, ⟨L, e', g5, g6, by rw [g7]; simp [hit], g9⟩, g8⟩
+    · have he : e < h.size := hin e c.tail_mem
+      have hgrow := B.grow
+      have he1 : e < h1.size := by omega
+      have c1 : Chain h1 r l e := c.congr (fun i hi => B.frame i (hin i hi))
+      have heB : e ∉ lb := fun hx => by have := (B.fresh e hx).1; omega
+      have hn : h.size ≤ n ∧ n < h1.size := B.fresh n B.chain.head_mem
+      have hsz2 : (setNext h1 e n).size = h1.size := setNext_size _ _ _
+      have hwf2 : WF (setNext h1 e n) := WF_setNext h1 e n B.wf he1 (by omega) hn.2 B.headNonempty
+      have c2 : Chain (setNext h1 e n) r (l ++ lb) e' := c1.link B.chain he1 heB
+      have hoth : ∀ i ∈ lb, (setNext h1 e n)[i]? = h1[i]? :=
+        fun i hi => setNext_other h1 e n i (fun x => heB (by rw [← x]; exact hi))
+      have cb2 : Chain (setNext h1 e n) n lb e' := B.chain.congr hoth
+      have hcur : tailOf (setNext h1 e n) (fuelOf (setNext h1 e n)) n = e' :=
+        ((cb2.bounds hwf2 (by rw [hsz2]; exact hn.2)).2.2.2).symm
+      have hun : appendLoop h (some r) (some e) log (a :: as) =
+          appendLoop (setNext h1 e n) (some r) (some e') (log ++ w ++ [e]) as := by
+        simp only [appendLoop, hb, hcur]
+      rw [hun]
+      have hfr2 : ∀ i, i < h.size → i ≠ e → (setNext h1 e n)[i]? = h[i]? :=
+        fun i hi hie => by rw [setNext_other h1 e n i hie, B.frame i hi]
+      have he' : h.size ≤ e' := (B.fresh e' B.chain.tail_mem).1
+      have hagree : ∀ id, Val.ref id ∈ as → id < h.size ∧ ∀ i ∈ chain h (fuelOf h) id, (setNext h1 e n)[i]? = h[i]? := by
+        intro id hid
+        obtain ⟨hlt, hnot⟩ := hargs' id hid
+        exact ⟨hlt, fun i hi => hfr2 i ((hwf.chain_spec hlt).2 i hi).2 (fun x => hnot (by rw [← x]; exact hi))⟩
+      have hargs2 : ∀ id, Val.ref id ∈ as → id < (setNext h1 e n).size ∧
+          e' ∉ chain (setNext h1 e n) (fuelOf (setNext h1 e n)) id := by
+        intro id hid
+        obtain ⟨hlt, hag⟩ := hagree id hid
+        have hch := (arg_frame h _ hwf hwf2 (by rw [hsz2]; omega) id hlt hag).1
+        refine ⟨by rw [hsz2]; omega, ?_⟩
+        rw [hch]
+        intro hx
+        have := ((hwf.chain_spec hlt).2 e' hx).2
+        omega
+      have hin2 : ∀ i ∈ l ++ lb, i < (setNext h1 e n).size := by
+        intro i hi
+        rw [hsz2]
+        rcases List.mem_append.mp hi with hi | hi
+        · have := hin i hi; omega
+        · exact (B.fresh i hi).2
+      have hne2 : isEmpty (setNext h1 e n) r = false :=
+        isEmpty_setNext h1 e n r (by rw [isEmpty_congr h h1 r (B.frame r (hin r c.head_mem))]; exact hne)
+      obtain ⟨g1, g2, g3, g4, ⟨L, e'', g5, g6, g7, g9⟩, g8⟩ :=
+        ih (setNext h1 e n) r e' (l ++ lb) (log ++ w ++ [e]) hwf2 c2 hin2 hne2 hargs2
+      rw [hsz2] at g3
+      have htail : h.size ≤ e'' := by
+        rcases g9 with ⟨hL, hres⟩ | hge
+        · subst hL
+          rw [hres, List.append_nil] at g5
+          have := (g5.unique c2).2
+          omega
+        · rw [hsz2] at hge; omega
+      refine ⟨g1, g2, by omega, ?_, ⟨lb ++ L, e'', by rw [← List.append_assoc]; exact g5, ?_, ?_, Or.inr htail⟩, ?_⟩
+      · intro i hi hie
+        rw [g4 i (by rw [hsz2]; omega) (by omega), hfr2 i hi hie]
+      · intro i hi
+        rcases List.mem_append.mp hi with hi | hi
+        · have := B.fresh i hi; omega
+        · have := g6 i hi; rw [hsz2] at this; omega
+      · rw [← List.append_assoc, g7, List.filterMap_append]
+        have e1 : l.filterMap (fun i => ((setNext h1 e n)[i]?).bind visible) =
+            l.filterMap (fun i => (h[i]?).bind visible) := by
+          apply filterMap_congr'
+          intro i hi
+          by_cases hie : i = e
+          · subst hie
+            rw [visible_setNext h1 i n he1
+              (by rw [isEmpty_congr h h1 i (B.frame i he)]; exact c.tail_nonempty hwf hne), B.frame i he]
+          · rw [hfr2 i (hin i hi) hie]
+        have e2 : lb.filterMap (fun i => ((setNext h1 e n)[i]?).bind visible) = argItems h a := by
+          rw [← B.items]
+          apply filterMap_congr'
+          intro i hi
+          rw [hoth i hi]
+        have e3 : as.flatMap (argItems (setNext h1 e n)) = as.flatMap (argItems h) := by
+          apply flatMap_congr'
+          intro a' ha'
+          apply argItems_frame h _ hwf hwf2 (by rw [hsz2]; omega)
+          intro id hid
+          subst hid
+          exact hagree id ha'
+        rw [e1, e2, e3]
+        simp [List.flatMap_cons, List.append_assoc]
+      · intro i hi
+        rcases g8 i hi with hi | hi | hi
+        · simp only [List.mem_append, List.mem_singleton] at hi
+          rcases hi with (hi | hi) | hi
+          · exact Or.inl hi
+          · exact Or.inr (Or.inr (B.written i hi))
+          · exact Or.inr (Or.inl hi)
+        · exact Or.inr (Or.inr (by omega))
+        · rw [hsz2] at hi; exact Or.inr (Or.inr (by omega))
+
+/-- what `appendLoop` achieves when it starts without a root (nil or empty accumulator) -/
+inductive NoneDone (h : Heap) (log : List Nat) (args : List Val) (res : Heap × Option Nat × List Nat) : Prop
+  | nothing : res = (h, none, log) → args.flatMap (argItems h) = [] → NoneDone h log args res
+  | built (r : Nat) : res.2.1 = some r → h.size ≤ r → WF res.1 → h.size ≤ res.1.size →
+      (∀ i, i < h.size → res.1[i]? = h[i]?) →
+      (∃ L e', Chain res.1 r L e' ∧ (∀ i ∈ L, h.size ≤ i ∧ i < res.1.size) ∧
+        L.filterMap (fun i => (res.1[i]?).bind visible) = args.flatMap (argItems h) ∧ h.size ≤ e') →
+      args.flatMap (argItems h) ≠ [] → (∀ i ∈ res.2.2, i ∈ log ∨ h.size ≤ i) → NoneDone h log args res
+
+theorem loop_none : ∀ (args : List Val) (h : Heap) (log : List Nat), WF h →
+    (∀ id, Val.ref id ∈ args → id < h.size) → NoneDone h log args (appendLoop h none none log args) := by
+  intro args
+  induction args with
+  | nil => intro h log _ _; exact NoneDone.nothing rfl rfl
+  | cons a as ih =>
+    intro h log hwf hargs
+    have hargs' : ∀ id, Val.ref id ∈ as → id < h.size := fun id hid => hargs id (by simp [hid])
+    rcases argNode_spec h a hwf (fun id ha => hargs id (by simp [ha])) with ⟨hsk, hit⟩ | ⟨h1, n, w, lb, e', hb, B⟩
+    · have hun : appendLoop h none none log (a :: as) = appendLoop h none none log as := by
+        simp only [appendLoop, hsk]
+      rw [hun]
+      cases ih h log hwf hargs' with
+      | nothing h1 h2 => exact NoneDone.nothing h1 (by simp [hit, h2])
+      | built r g1 g2 g3 g4 g5 g6 g7 g8 =>
+        exact NoneDone.built r g1 g2 g3 g4 g5 (by simpa [hit] using g6) (by simpa [hit] using g7) g8
+    · have hgrow := B.grow
+      have hn : h.size ≤ n ∧ n < h1.size := B.fresh n B.chain.head_mem
+      have hcur : tailOf h1 (fuelOf h1) n = e' := ((B.chain.bounds B.wf hn.2).2.2.2).symm
+      have hun : appendLoop h none none log (a :: as) = appendLoop h1 (some n) (some e') (log ++ w) as := by
+        simp only [appendLoop, hb, hcur]
+      rw [hun]
+      have he' : h.size ≤ e' := (B.fresh e' B.chain.tail_mem).1
+      have hagree : ∀ id, Val.ref id ∈ as → id < h.size ∧ ∀ i ∈ chain h (fuelOf h) id, h1[i]? = h[i]? := by
+        intro id hid
+        have hlt := hargs' id hid
+        exact ⟨hlt, fun i hi => B.frame i ((hwf.chain_spec hlt).2 i hi).2⟩
+      have hargs1 : ∀ id, Val.ref id ∈ as → id < h1.size ∧ e' ∉ chain h1 (fuelOf h1) id := by
+        intro id hid
+        obtain ⟨hlt, hag⟩ := hagree id hid
+        have hch := (arg_frame h _ hwf B.wf (by omega) id hlt hag).1
+        refine ⟨by omega, ?_⟩
+        rw [hch]
+        intro hx
+        have := ((hwf.chain_spec hlt).2 e' hx).2
+        omega
+      obtain ⟨g1, g2, g3, g4, ⟨L, e'', g5, g6, g7, g9⟩, g8⟩ :=
+        loop_some as h1 n e' lb (log ++ w) B.wf B.chain (fun i hi => (B.fresh i hi).2) B.headNonempty hargs1
+      have htail : h.size ≤ e'' := by
+        rcases g9 with ⟨hL, hres⟩ | hge
+        · subst hL
+          rw [hres, List.append_nil] at g5
+          have := (g5.unique B.chain).2
+          omega
+        · omega
+      have e3 : as.flatMap (argItems h1) = as.flatMap (argItems h) := by
+        apply flatMap_congr'
+        intro a' ha'
+        apply argItems_frame h _ hwf B.wf (by omega)
+        intro id hid
+        subst hid
+        exact hagree id ha'
+      refine NoneDone.built n g1 hn.1 g2 (by omega) ?_ ⟨lb ++ L, e'', g5, ?_, ?_, htail⟩ ?_ ?_
+      · intro i hi
+        rw [g4 i (by omega) (by omega), B.frame i hi]
+      · intro i hi
+        rcases List.mem_append.mp hi with hi | hi
+        · have := B.fresh i hi; omega
+        · have := g6 i hi; omega
+      · rw [g7, B.items, e3]; simp [List.flatMap_cons]
+      · simp only [List.flatMap_cons]
+        intro hx
+        exact B.itemsNe (List.append_eq_nil_iff.mp hx).1
+      · intro i hi
+        rcases g8 i hi with hi | hi | hi
+        · rcases List.mem_append.mp hi with hi | hi
+          · exact Or.inl hi
+          · exact Or.inr (B.written i hi)
+        · exact Or.inr (by omega)
+        · exact Or.inr (by omega)
+
+/-! ### `Append` as a whole -/
+
+/-- the content of the result of `Append` -/
+def resItems (res : Heap × Option Nat × List Nat) : List Item :=
+  match res.2.1 with | some r => items res.1 r | none => []
+
+/-- the effective accumulator (design Appendix B): `err`, or — when `err` is the nil interface — the first argument
+    that is not the nil interface, which `Append` adopts -/
+def accOf : Val → List Val → Val
+  | .nilIface, a :: as => accOf a as
+  | v, _ => v
+
+/-- the arguments that are appended to the effective accumulator -/
+def restOf : Val → List Val → List Val
+  | .nilIface, a :: as => restOf a as
+  | _, args => args
+
+/-- no appended argument's chain ends in the accumulator's last cell (the one pre-existing cell `Append` writes) -/
+def NoAlias (h : Heap) (acc : Val) (args : List Val) : Prop :=
+  ∀ id, accOf acc args = .ref id → ∀ id', Val.ref id' ∈ restOf acc args →
+    tailOf h (fuelOf h) id ∉ chain h (fuelOf h) id'
+
+structure AppendDone (h : Heap) (acc : Val) (args : List Val) (res : Heap × Option Nat × List Nat) : Prop where
+  wf : WF res.1
+  grow : h.size ≤ res.1.size
+  rootLt : ∀ r, res.2.1 = some r → r < res.1.size
+  items : resItems res = argItems h acc ++ args.flatMap (argItems h)
+  nilIff : res.2.1 = none ↔ argItems h acc ++ args.flatMap (argItems h) = []
+  written : ∀ i ∈ res.2.2, (∃ id, accOf acc args = .ref id ∧ i = tailOf h (fuelOf h) id) ∨ h.size ≤ i
+  frame : ∀ i, i < h.size → (∀ id, accOf acc args = .ref id → i ≠ tailOf h (fuelOf h) id) → res.1[i]? = h[i]?
+  tail : ∀ r, res.2.1 = some r →
+    h.size ≤ tailOf res.1 (fuelOf res.1) r ∨ (res.1 = h ∧ accOf acc args = .ref r)
+
+theorem items_eq_of_chain {h : Heap} (hwf : WF h) {r e : Nat} {l : List Nat} (c : Chain h r l e) (hr : r < h.size) :
+    items h r = l.filterMap (fun i => (h[i]?).bind visible) := by
+  unfold items itemsAt
+  rw [← (c.bounds hwf hr).2.2.1]
+
+theorem items_ne_nil {h : Heap} (hwf : WF h) {id : Nat} (hid : id < h.size) (hne : isEmpty h id = false) :
+    items h id ≠ [] := by
+  obtain ⟨l, e, c, _, _⟩ := hwf.exists_chain (h.size - id) id (Nat.le_refl _) hid
+  rw [items_eq_of_chain hwf c hid]
+  have hv : (h[id]?).bind visible = some (itemOf (getNode h id)) := by
+    rw [get_of_lt h id hid]; exact visible_of_nonempty _ (isEmpty_false_node h id hid hne)
+  cases c with
+  | last _ _ => simp [hv]
+  | step _ j l _ _ _ => simp [hv]
+
+theorem wrapper_built (h : Heap) (v : Val) (hwf : WF h) (hnil : isNil v = false) (hnr : ∀ id, v ≠ .ref id) :
+    ArgBuilt h v (h.push (wrapperNode v)) h.size [] [h.size] h.size := by
+  have hpush : h.push (wrapperNode v) = h ++ (freshBlock h.size [wrapperNode v]).toArray := by
+    simp [freshBlock, wrapperNode]
+  have ok : BlockOK [wrapperNode v] := ⟨by simp [LinkShape, wrapperNode], by simp [nodeEmpty, wrapperNode]⟩
+  have hit : argItems h v = [itemOf (wrapperNode v)] := by
+    cases v with
+    | ref id => exact absurd rfl (hnr id)
+    | nilIface => simp [isNil] at hnil
+    | typedNil => simp [isNil] at hnil
+    | foreignNil => simp [isNil] at hnil
+    | plain u m => simp [argItems, isNil]
+    | fwrap u m inner => simp [argItems, isNil]
+  have := built_of_block h v [wrapperNode v] [] hwf ok
+    (by rw [hit]; simp [visible_of_nonempty (wrapperNode v) (ok.nonempty (wrapperNode v) (by simp))]) (by simp)
+  rw [hpush]
+  simpa [List.range'] using this
+
+theorem none_to_done (h : Heap) (acc : Val) (args : List Val) (hwf : WF h) (hacc0 : argItems h acc = [])
+    (hun : append h acc args = appendLoop h none none [] args)
+    (hids : ∀ id, Val.ref id ∈ args → id < h.size) : AppendDone h acc args (append h acc args) := by
+  rw [hun]
+  cases loop_none args h [] hwf hids with
+  | nothing h1 h2 =>
+    rw [h1]
+    exact ⟨hwf, Nat.le_refl _, by simp, by simp [resItems, hacc0, h2], by simp [hacc0, h2], by simp, fun _ _ _ => rfl,
+      by simp⟩
+  | built r g1 g2 g3 g4 g5 g6 g7 g8 =>
+    obtain ⟨L, e', c, hL, hit, htl⟩ := g6
+    have hr : r < (appendLoop h none none [] args).1.size := (hL r c.head_mem).2
+    refine ⟨g3, g4, fun r' hr' => by rw [g1] at hr'; cases hr'; exact hr, ?_, ?_, ?_, fun i hi _ => g5 i hi,
+      fun r' hr' => by rw [g1] at hr'; cases hr'; rw [← (c.bounds g3 hr).2.2.2]; exact Or.inl htl⟩
+    · simp only [resItems, g1]
+      rw [items_eq_of_chain g3 c hr, hit, hacc0]; rfl
+    · rw [g1, hacc0]; simp [g7]
+    · intro i hi
+      rcases g8 i hi with hi | hi
+      · simp at hi
+      · exact Or.inr hi
+
+theorem some_to_done (h : Heap) (acc : Val) (args : List Val) (id : Nat) (hacc : acc = .ref id) (hwf : WF h)
+    (hid : id < h.size) (hne : isEmpty h id = false)
+    (hids : ∀ id', Val.ref id' ∈ args → id' < h.size)
+    (hna : ∀ id', Val.ref id' ∈ args → tailOf h (fuelOf h) id ∉ chain h (fuelOf h) id') :
+    AppendDone h acc args (append h acc args) := by
+  subst hacc
+  have hun : append h (.ref id) args = appendLoop h (some id) (some (tailOf h (fuelOf h) id)) [] args := by
+    simp [append, hne]
+  rw [hun]
+  obtain ⟨c, hm⟩ := hwf.chain_spec hid
+  obtain ⟨g1, g2, g3, g4, ⟨L, e', g5, g6, g7, g9⟩, g8⟩ :=
+    loop_some args h id _ _ [] hwf c (fun i hi => (hm i hi).2) hne (fun id' hid' => ⟨hids id' hid', hna id' hid'⟩)
+  have hacc' : accOf (.ref id) args = .ref id := by cases args <;> rfl
+  refine ⟨g2, g3, fun r' hr' => by rw [g1] at hr'; cases hr'; omega, ?_, ?_, ?_, ?_, ?_⟩
+  rotate_right
+  · intro r' hr'
+    rw [g1] at hr'; cases hr'
+    rcases g9 with ⟨_, hres⟩ | hge
+    · exact Or.inr ⟨hres, hacc'⟩
+    · rw [← (g5.bounds g2 (by omega)).2.2.2]; exact Or.inl hge
+  · simp only [resItems, g1]
+    rw [items_eq_of_chain g2 g5 (by omega), g7]; rfl
+  · rw [g1]
+    have : argItems h (.ref id) ≠ [] := items_ne_nil hwf hid hne
+    simp [this]
+  · intro i hi
+    rcases g8 i hi with hi | hi | hi
+    · simp at hi
+    · exact Or.inl ⟨id, hacc', hi⟩
+    · exact Or.inr hi
+  · intro i hi hx
+    exact g4 i hi (hx id hacc')
+
+theorem accOf_of_ne (acc : Val) (args : List Val) (h : acc ≠ .nilIface) : accOf acc args = acc := by
+  cases acc <;> first | exact absurd rfl h | (cases args <;> rfl)
+
+theorem restOf_of_ne (acc : Val) (args : List Val) (h : acc ≠ .nilIface) : restOf acc args = args := by
+  cases acc <;> first | exact absurd rfl h | (cases args <;> rfl)
+
+theorem wrap_to_done (h : Heap) (v : Val) (args : List Val) (hwf : WF h) (hnil : isNil v = false)
+    (hnr : ∀ id, v ≠ .ref id) (hids : ∀ id', Val.ref id' ∈ args → id' < h.size) :
+    AppendDone h v args (append h v args) := by
+  have hun : append h v args = appendLoop (h.push (wrapperNode v)) (some h.size) (some h.size) [] args := by
+    cases v with
+    | ref id => exact absurd rfl (hnr id)
+    | nilIface => simp [isNil] at hnil
+    | typedNil => simp [isNil] at hnil
+    | foreignNil => simp [isNil] at hnil
+    | plain u m => simp [append, isNil]
+    | fwrap u m inner => simp [append, isNil]
+  rw [hun]
+  have B := wrapper_built h v hwf hnil hnr
+  have hgrow := B.grow
+  have hagree : ∀ id, Val.ref id ∈ args → id < h.size ∧
+      ∀ i ∈ chain h (fuelOf h) id, (h.push (wrapperNode v))[i]? = h[i]? := by
+    intro id hid
+    have hlt := hids id hid
+    exact ⟨hlt, fun i hi => B.frame i ((hwf.chain_spec hlt).2 i hi).2⟩
+  have hargs1 : ∀ id, Val.ref id ∈ args → id < (h.push (wrapperNode v)).size ∧
+      h.size ∉ chain (h.push (wrapperNode v)) (fuelOf (h.push (wrapperNode v))) id := by
+    intro id hid
+    obtain ⟨hlt, hag⟩ := hagree id hid
+    have hch := (arg_frame h _ hwf B.wf (by omega) id hlt hag).1
+    refine ⟨by omega, ?_⟩
+    rw [hch]
+    intro hx
+    have := ((hwf.chain_spec hlt).2 h.size hx).2
+    omega
+  obtain ⟨g1, g2, g3, g4, ⟨L, e', g5, g6, g7, g9⟩, g8⟩ :=
+    loop_some args (h.push (wrapperNode v)) h.size h.size [h.size] [] B.wf B.chain
+      (fun i hi => (B.fresh i hi).2) B.headNonempty hargs1
+  have htail : h.size ≤ e' := by
+    rcases g9 with ⟨hL, hres⟩ | hge
+    · subst hL
+      rw [hres, List.append_nil] at g5
+      have := (g5.unique B.chain).2
+      omega
+    · omega
+  have e3 : args.flatMap (argItems (h.push (wrapperNode v))) = args.flatMap (argItems h) := by
+    apply flatMap_congr'
+    intro a' ha'
+    apply argItems_frame h _ hwf B.wf (by omega)
+    intro id hid
+    subst hid
+    exact hagree id ha'
+  have hr : h.size < (appendLoop (h.push (wrapperNode v)) (some h.size) (some h.size) [] args).1.size := by omega
+  refine ⟨g2, by omega, fun r' hr' => by rw [g1] at hr'; cases hr'; exact hr, ?_, ?_, ?_, ?_,
+    fun r' hr' => by rw [g1] at hr'; cases hr'; rw [← (g5.bounds g2 hr).2.2.2]; exact Or.inl htail⟩
+  · simp only [resItems, g1]
+    rw [items_eq_of_chain g2 g5 hr, g7, B.items, e3]
+  · rw [g1]
+    have := B.itemsNe
+    simp [this]
+  · intro i hi
+    rcases g8 i hi with hi | hi | hi
+    · simp at hi
+    · exact Or.inr (by omega)
+    · exact Or.inr (by omega)
+  · intro i hi _
+    rw [g4 i (by omega) (by omega), B.frame i hi]
+
+theorem append_core (h : Heap) (acc : Val) (args : List Val) (hacc : acc ≠ .nilIface) (hwf : WF h)
+    (hids : ∀ id, Val.ref id ∈ acc :: args → id < h.size)
+    (hna : ∀ id, acc = .ref id → ∀ id', Val.ref id' ∈ args → tailOf h (fuelOf h) id ∉ chain h (fuelOf h) id') :
+    AppendDone h acc args (append h acc args) := by
+  have hids' : ∀ id', Val.ref id' ∈ args → id' < h.size := fun id' hid' => hids id' (by simp [hid'])
+  cases acc with
+  | nilIface => exact absurd rfl hacc
+  | typedNil => exact none_to_done h _ args hwf (by simp [argItems, isNil]) (by simp [append]) hids'
+  | foreignNil => exact none_to_done h _ args hwf (by simp [argItems, isNil]) (by simp [append, isNil]) hids'
+  | plain u m => exact wrap_to_done h _ args hwf (by simp [isNil]) (by simp) hids'
+  | fwrap u m inner => exact wrap_to_done h _ args hwf (by simp [isNil]) (by simp) hids'
+  | ref id =>
+    by_cases he : isEmpty h id = true
+    · exact none_to_done h _ args hwf (by simp [argItems, items_of_empty h id he]) (by simp [append, he]) hids'
+    · exact some_to_done h _ args id rfl hwf (hids id (by simp)) (by simpa using he) hids' (hna id rfl)
+
+/-- **the assembled theorem about `Append`** -/
+theorem append_spec : ∀ (args : List Val) (acc : Val) (h : Heap), WF h →
+    (∀ id, Val.ref id ∈ acc :: args → id < h.size) → NoAlias h acc args →
+    AppendDone h acc args (append h acc args) := by
+  intro args
+  induction args with
+  | nil =>
+    intro acc h hwf hids hna
+    by_cases hacc : acc = .nilIface
+    · subst hacc
+      have hun : append h .nilIface [] = (h, none, []) := by simp [append]
+      rw [hun]
+      exact ⟨hwf, Nat.le_refl _, by simp, by simp [resItems, argItems, isNil], by simp [argItems, isNil], by simp,
+        fun _ _ _ => rfl, by simp⟩
+    · exact append_core h acc [] hacc hwf hids (fun id hid id' hid' => by simp at hid')
+  | cons a as ih =>
+    intro acc h hwf hids hna
+    by_cases hacc : acc = .nilIface
+    · subst hacc
+      have hun : append h .nilIface (a :: as) = append h a as := by simp [append]
+      rw [hun]
+      have D := ih a h hwf (fun id hid => hids id (List.mem_cons_of_mem _ hid)) hna
+      have h0 : argItems h .nilIface = [] := by simp [argItems, isNil]
+      exact ⟨D.wf, D.grow, D.rootLt, by rw [D.items, h0]; simp, by rw [D.nilIff, h0]; simp, D.written, D.frame,
+        D.tail⟩
+    · refine append_core h acc (a :: as) hacc hwf hids ?_
+      intro id hid id' hid'
+      refine hna id (by rw [accOf_of_ne acc _ hacc]; exact hid) id' (by rw [restOf_of_ne acc _ hacc]; exact hid')
+
+/-! ### consequences -/
+
+theorem restOf_subset : ∀ (args : List Val) (acc : Val) (x : Val), x ∈ restOf acc args → x ∈ args := by
+  intro args
+  induction args with
+  | nil => intro acc x hx; cases acc <;> exact hx
+  | cons a as ih =>
+    intro acc x hx
+    cases acc with
+    | nilIface => exact List.mem_cons_of_mem _ (ih a x hx)
+    | typedNil => exact hx
+    | foreignNil => exact hx
+    | ref id => exact hx
+    | plain u m => exact hx
+    | fwrap u m inner => exact hx
+
+/-- frame for any pre-existing aggregate whose chain does not end in the accumulator's last cell -/
+theorem append_frame_any (h : Heap) (acc : Val) (args : List Val) (hwf : WF h)
+    (hids : ∀ id, Val.ref id ∈ acc :: args → id < h.size) (hna : NoAlias h acc args) (id' : Nat) (hid' : id' < h.size)
+    (hno : ∀ id, accOf acc args = .ref id → tailOf h (fuelOf h) id ∉ chain h (fuelOf h) id') :
+    chain (append h acc args).1 (fuelOf (append h acc args).1) id' = chain h (fuelOf h) id' ∧
+    items (append h acc args).1 id' = items h id' ∧
+    ∀ i ∈ chain h (fuelOf h) id', (append h acc args).1[i]? = h[i]? := by
+  have D := append_spec args acc h hwf hids hna
+  have hag : ∀ i ∈ chain h (fuelOf h) id', (append h acc args).1[i]? = h[i]? := by
+    intro i hi
+    apply D.frame i ((hwf.chain_spec hid').2 i hi).2
+    intro id hacc heq
+    exact hno id hacc (by rw [← heq]; exact hi)
+  have := arg_frame h _ hwf D.wf D.grow id' hid' hag
+  exact ⟨this.1, this.2, hag⟩
+
+theorem filterMap_length_filter {α β : Type} (f : α → Option β) (p : α → Bool) (l : List α)
+    (h : ∀ x ∈ l, (f x).isSome = p x) : (l.filterMap f).length = (l.filter p).length := by
+  induction l with
+  | nil => rfl
+  | cons a l ih =>
+    have ha := h a (by simp)
+    have := ih (fun x hx => h x (by simp [hx]))
+    simp only [List.filterMap_cons, List.filter_cons]
+    cases hf : f a with
+    | none => rw [hf] at ha; simp at ha; simp [ha, this]
+    | some b => rw [hf] at ha; simp at ha; simp [ha, this]
+
+/-- `Count` is the number of non-empty errors of the chain — on every heap -/
+theorem count_eq_items (h : Heap) (id : Nat) : count h id = (items h id).length := by
+  unfold count items itemsAt
+  symm
+  apply filterMap_length_filter
+  intro i _
+  unfold isEmpty
+  cases h[i]? with
+  | none => rfl
+  | some n => simp only [Option.bind_some, visible]; cases nodeEmpty n <;> rfl
+
+/-- `WrappedErrors` of an aggregate with a non-empty head is the list of its items -/
+theorem wrapped_eq_items (h : Heap) (hwf : WF h) (id : Nat) (hid : id < h.size) (hne : isEmpty h id = false) :
+    (wrappedErrors h id).map itemOf = items h id := by
+  obtain ⟨c, hm⟩ := hwf.chain_spec hid
+  unfold wrappedErrors items itemsAt
+  rw [List.map_filterMap]
+  apply filterMap_congr'
+  intro i hi
+  have hlt := (hm i hi).2
+  have hne_i : isEmpty h i = false := by
+    rcases c.mem_cases i hi with rfl | ⟨p, hp⟩
+    · exact hne
+    · exact (hwf p i hp).2.2
+  rw [get_of_lt h i hlt]
+  simp only [Option.map_some, Option.bind_some]
+  rw [visible_of_nonempty _ (isEmpty_false_node h i hlt hne_i)]
+  rfl
+
+theorem root_nonempty {h : Heap} {acc : Val} {args : List Val} {res : Heap × Option Nat × List Nat}
+    (D : AppendDone h acc args res) (r : Nat) (hr : res.2.1 = some r) : isEmpty res.1 r = false := by
+  cases he : isEmpty res.1 r with
+  | false => rfl
+  | true =>
+    have h1 : resItems res = [] := by simp only [resItems, hr]; exact items_of_empty _ _ he
+    have h2 := D.nilIff.mpr (by rw [← D.items]; exact h1)
+    rw [hr] at h2; cases h2
+
+/-- a Boolean check of the invariant (run by the model driver on every heap it builds) -/
+theorem wf_of_wfb (h : Heap) (hb : wfb h = true) : WF h := by
+  intro i j hij
+  have hi := nextOf_lt_size hij
+  unfold wfb at hb
+  have := List.all_eq_true.mp hb i (List.mem_range.mpr hi)
+  rw [hij] at this
+  simp at this
+  exact ⟨this.1.1, this.1.2, this.2⟩
+
+theorem accOf_mem : ∀ (args : List Val) (acc : Val), accOf acc args ∈ acc :: args := by
+  intro args
+  induction args with
+  | nil => intro acc; cases acc <;> simp [accOf]
+  | cons a as ih =>
+    intro acc
+    cases acc with
+    | nilIface => exact List.mem_cons_of_mem _ (ih a)
+    | typedNil => simp [accOf]
+    | foreignNil => simp [accOf]
+    | ref id => simp [accOf]
+    | plain u m => simp [accOf]
+    | fwrap u m inner => simp [accOf]
+
+/-- a sequence of `Append`s on one accumulator: the result of each call is the accumulator of the next -/
+def appendSeq (h : Heap) (acc : Val) : List (List Val) → Heap × Val
+  | [] => (h, acc)
+  | args :: rest => appendSeq (append h acc args).1 (ptrVal (append h acc args).2.1) rest
+
+theorem argItems_ptrVal (res : Heap × Option Nat × List Nat) : argItems res.1 (ptrVal res.2.1) = resItems res := by
+  unfold resItems
+  cases res.2.1 with
+  | none => simp [ptrVal, argItems, isNil]
+  | some r => simp [ptrVal, argItems]
+
+theorem appendSeq_spec : ∀ (argss : List (List Val)) (h : Heap) (acc : Val), acc ≠ .nilIface → WF h →
+    (∀ id, acc = .ref id → id < h.size) →
+    (∀ args ∈ argss, ∀ id', Val.ref id' ∈ args → id' < h.size ∧
+      ∀ id, acc = .ref id → tailOf h (fuelOf h) id ∉ chain h (fuelOf h) id') →
+    argItems (appendSeq h acc argss).1 (appendSeq h acc argss).2 =
+      argItems h acc ++ argss.flatMap (fun args => args.flatMap (argItems h)) ∧
+    WF (appendSeq h acc argss).1 := by
+  intro argss
+  induction argss with
+  | nil => intro h acc _ hwf _ _; exact ⟨by simp [appendSeq], hwf⟩
+  | cons args rest ih =>
+    intro h acc hacc hwf hid hargs
+    have hids : ∀ id, Val.ref id ∈ acc :: args → id < h.size := by
+      intro id hmem
+      rcases List.mem_cons.mp hmem with heq | hmem
+      · exact hid id heq.symm
+      · exact (hargs args (by simp) id hmem).1
+    have hna : NoAlias h acc args := by
+      intro id hid' id' hmem
+      rw [accOf_of_ne acc _ hacc] at hid'
+      rw [restOf_of_ne acc _ hacc] at hmem
+      exact (hargs args (by simp) id' hmem).2 id hid'
+    have D := append_spec args acc h hwf hids hna
+    have hfr : ∀ args' ∈ rest, ∀ id', Val.ref id' ∈ args' → id' < h.size ∧
+        chain (append h acc args).1 (fuelOf (append h acc args).1) id' = chain h (fuelOf h) id' ∧
+        ∀ i ∈ chain h (fuelOf h) id', (append h acc args).1[i]? = h[i]? := by
+      intro args' hargs' id' hmem
+      obtain ⟨hlt, hno⟩ := hargs args' (List.mem_cons_of_mem _ hargs') id' hmem
+      have := append_frame_any h acc args hwf hids hna id' hlt
+        (fun id hx => hno id (by rw [accOf_of_ne acc _ hacc] at hx; exact hx))
+      exact ⟨hlt, this.1, this.2.2⟩
+    have hacc' : ptrVal (append h acc args).2.1 ≠ .nilIface := by
+      cases (append h acc args).2.1 <;> simp [ptrVal]
+    have hid' : ∀ r, ptrVal (append h acc args).2.1 = .ref r → r < (append h acc args).1.size := by
+      intro r hr
+      apply D.rootLt r
+      cases hx : (append h acc args).2.1 with
+      | none => rw [hx] at hr; simp [ptrVal] at hr
+      | some r' => rw [hx] at hr; simp [ptrVal] at hr; rw [hr]
+    have hargs2 : ∀ args' ∈ rest, ∀ id', Val.ref id' ∈ args' → id' < (append h acc args).1.size ∧
+        ∀ r, ptrVal (append h acc args).2.1 = .ref r →
+          tailOf (append h acc args).1 (fuelOf (append h acc args).1) r ∉
+            chain (append h acc args).1 (fuelOf (append h acc args).1) id' := by
+      intro args' hargs' id' hmem
+      obtain ⟨hlt, hch, _⟩ := hfr args' hargs' id' hmem
+      have hgrow := D.grow
+      refine ⟨by omega, ?_⟩
+      intro r hr
+      have hroot : (append h acc args).2.1 = some r := by
+        cases hx : (append h acc args).2.1 with
+        | none => rw [hx] at hr; simp [ptrVal] at hr
+        | some r' => rw [hx] at hr; simp [ptrVal] at hr; rw [hr]
+      rw [hch]
+      rcases D.tail r hroot with hge | ⟨hres, hacr⟩
+      · intro hx
+        have := ((hwf.chain_spec hlt).2 _ hx).2
+        omega
+      · rw [hres]
+        rw [accOf_of_ne acc _ hacc] at hacr
+        exact (hargs args' (List.mem_cons_of_mem _ hargs') id' hmem).2 r hacr
+    obtain ⟨i1, i2⟩ := ih (append h acc args).1 (ptrVal (append h acc args).2.1) hacc' D.wf hid' hargs2
+    refine ⟨?_, i2⟩
+    have e1 : rest.flatMap (fun args' => args'.flatMap (argItems (append h acc args).1)) =
+        rest.flatMap (fun args' => args'.flatMap (argItems h)) := by
+      apply flatMap_congr'
+      intro args' hargs'
+      apply flatMap_congr'
+      intro a' ha'
+      apply argItems_frame h _ hwf D.wf D.grow
+      intro id' heq
+      subst heq
+      obtain ⟨hlt, _, hag⟩ := hfr args' hargs' id' ha'
+      exact ⟨hlt, hag⟩
+    show argItems (appendSeq (append h acc args).1 (ptrVal (append h acc args).2.1) rest).1
+        (appendSeq (append h acc args).1 (ptrVal (append h acc args).2.1) rest).2 = _
+    rw [i1, argItems_ptrVal, D.items, e1]
+    simp [List.flatMap_cons, List.append_assoc]
+
+/-! ### the constructors keep the invariant -/
+
+theorem push_wf (h : Heap) (n : ENode) (hwf : WF h) (hn : n.next = none) : WF (h.push n) := by
+  intro i j hij
+  have hcell : ∀ k, k < h.size → (h.push n)[k]? = h[k]? := by
+    intro k hk; rw [Array.getElem?_push]; simp [Nat.ne_of_lt hk]
+  by_cases hi : i < h.size
+  · rw [nextOf_congr h _ i (hcell i hi)] at hij
+    obtain ⟨h1, h2, h3⟩ := hwf i j hij
+    refine ⟨h1, by simp; omega, ?_⟩
+    rw [isEmpty_congr h _ j (hcell j h2)]; exact h3
+  · have hlt := nextOf_lt_size hij
+    have hie : i = h.size := by simp at hlt; omega
+    subst hie
+    unfold nextOf at hij
+    rw [Array.getElem?_push] at hij
+    simp [hn] at hij
+
+theorem wrap_wf (h : Heap) (v : Val) (hwf : WF h) : WF (wrap h v).1 := by
+  unfold wrap
+  split
+  · exact hwf
+  · split
+    · exact hwf
+    · exact push_wf h _ hwf rfl
+
+theorem wrapTyped_wf (h : Heap) (v : Val) (hwf : WF h) : WF (wrapTyped h v).1 := by
+  unfold wrapTyped
+  split
+  · exact hwf
+  · split
+    · exact hwf
+    · exact push_wf h _ hwf rfl
+
 end Errs
